@@ -87,11 +87,26 @@ def gen_scn(r, k, forced=None):
     nsteps = r.randint(8, 30)
     p_out = f.get("p_out", r.choice([0.0, 0.1, 0.25]))
     p_save = f.get("p_save", r.choice([0.0, 0.0, 0.08]))
+    p_restart = f.get("p_restart", r.choice([0.0, 0.0, 0.06]))
+    can_rebin = use_grids and c["keep"] and not any(v["expand"] for v in vars_)
     events = []
     prev = None
+    cur = [dict(lower=v["lower"], upper=v["upper"], nx=v["nx"]) for v in vars_]   # current boundaries of the configuration
     for s in range(nsteps):
+        if s > 0 and r.random() < p_restart:
+            if can_rebin and r.random() < 0.5:
+                g = []
+                for v, b in zip(vars_, cur):
+                    lo = b["lower"] + r.randint(-3, 3) * v["w"] / 2
+                    nx = b["nx"] if v["gper"] else max(3, b["nx"] + r.randint(-2, 3))
+                    b.update(lower=lo, upper=lo + nx * v["w"], nx=nx)
+                    g.append((nx, lo, lo + nx * v["w"]))
+                events.append(("rebin", g))
+            else:
+                events.append(("restart",))
         zs = []
-        for d, v in enumerate(vars_):
+        for d, v0 in enumerate(vars_):
+            v = dict(v0, **cur[d])
             if v["kind"] != 0:
                 # position of the second atom (the first one sits at the origin)
                 if prev is not None and r.random() < 0.6:
@@ -119,10 +134,15 @@ def gen_scn(r, k, forced=None):
             if v["periodic"] and r.random() < 0.3:
                 z += r.randint(-2, 2) * v["P"]
             zs.append(z)
+        if events and events[-1][0] in ("restart", "rebin"):
+            zs = last_zs         # a resumed run starts from the configuration at which the state was written
+        last_zs = zs
         prev = [(wrap_exact(z, v["c"], v["P"]) if v["periodic"] else z) for z, v in zip(zs, vars_)]
         boundary = (s > 0) and r.random() < 0.1
         if s > 0 and use_grids and r.random() < p_save:
             events.append(("save",))
+        if events and events[-1][0] in ("restart", "rebin"):
+            boundary = False
         events.append(("step", boundary, zs))
     c["events"] = events
     return c
@@ -136,15 +156,21 @@ def steps_of(c):
     """(it, rel, cont, imposed positions) per step event, as the engine simulator produces them"""
     out = []
     it = c["it0"]
-    n = 0
+    run_start = it
+    first = True
     for e in c["events"]:
+        if e[0] in ("restart", "rebin"):
+            run_start = it          # the fresh instance resumes at the step of the state
+            first = True
+            continue
         if e[0] != "step":
             continue
         boundary, zs = e[1], e[2]
-        if n > 0 and not boundary:
+        if first:
+            first = False
+        elif not boundary:
             it += 1
-        out.append((it, it - c["it0"], bool(boundary), zs))
-        n += 1
+        out.append((it, it - run_start, bool(boundary), zs))
     return out
 
 
@@ -161,16 +187,15 @@ def atoms_of(c):
     return out, a - 1
 
 
-def scenario_text(c, dump=True):
+def config_text(c, geom=None, rebin=False):
+    """the Colvars configuration; geom = [(nx, lower, upper)] replaces the boundaries (restart with rebinGrids)"""
     first, natoms = atoms_of(c)
-    L = ["natoms %d" % natoms, "nocell", "new"]
-    if c["it0"]:
-        L.append("setstep %d" % c["it0"])
-    L.append("config EOF")
+    L = ["config EOF"]
     for d, v in enumerate(c["vars"]):
+        lower, upper = (v["lower"], v["upper"]) if geom is None else (geom[d][1], geom[d][2])
         L += ["colvar {", "  name v%d" % d, "  width %r" % v["w"]]
         if v["kind"] == 0:
-            L += ["  lowerBoundary %r" % v["lower"], "  upperBoundary %r" % v["upper"]]
+            L += ["  lowerBoundary %r" % lower, "  upperBoundary %r" % upper]
             if v["expand"]:
                 L.append("  expandBoundaries on")
             if v["hlo"]:
@@ -198,17 +223,36 @@ def scenario_text(c, dump=True):
             L.append("  gridsUpdateFrequency %d" % c["gfreq"])
         if c["keep"]:
             L.append("  keepHills on")
+        if rebin:
+            L.append("  rebinGrids on")
     if c["wt"]:
         L += ["  wellTempered on", "  biasTemperature %r" % c["bt"]]
     if c["stepzero"]:
         L.append("  stepZeroData on")
     L += ["}", "EOF", "show atomf 0 energy 0 af 1 bias 1"]
+    return L
+
+
+def scenario_text(c, dump=True):
+    first, natoms = atoms_of(c)
+    L = ["natoms %d" % natoms, "nocell", "new"]
+    if c["it0"]:
+        L.append("setstep %d" % c["it0"])
+    L += config_text(c)
     for d, v in enumerate(c["vars"]):
         if v["kind"] != 0:
             L.append("pos %d 0 0 0" % first[d])
+    nstate = 0
     for e in c["events"]:
         if e[0] == "save":
             L.append("save text c05.state")
+            continue
+        if e[0] in ("restart", "rebin"):
+            # the state is written, a fresh instance reads it (for "rebin": with new boundaries and rebinGrids on)
+            nstate += 1
+            L += ["metatraj m", "save text c05r%d.state" % nstate, "new"]
+            L += config_text(c, e[1], True) if e[0] == "rebin" else config_text(c)
+            L.append("load c05r%d.state" % nstate)
             continue
         boundary, zs = e[1], e[2]
         for d, z in enumerate(zs):
@@ -240,6 +284,14 @@ def model_case(c, xs, dump=True):
     for e in c["events"]:
         if e[0] == "save":
             p.append("W")
+            continue
+        if e[0] == "restart":
+            p.append("R")
+            continue
+        if e[0] == "rebin":
+            p.append("B")
+            for (nx, lo, up) in e[1]:
+                p += [V.hexf(lo), V.hexf(up), str(nx)]
             continue
         it, rel, cont, _ = st[n]
         p += ["S", str(it), str(rel), "1" if cont else "0"] + [V.hexf(t) for xv in xs[n] for t in xv]
@@ -357,13 +409,24 @@ def parse_model(c, line):
     return steps
 
 
-def hills_close(a, b):
+def centres_same(c1, c2, exact):
+    if exact:
+        return c1 == c2
+    # hills read back from a text state file: centres are printed with 14 significant digits
+    return len(c1) == len(c2) and all(len(p) == len(q) and all(close(t, u, 1e-12) for t, u in zip(p, q)) for p, q in zip(c1, c2))
+
+
+def hills_close(a, b, exact=True):
     if len(a) != len(b):
         return False
     for (i1, w1, c1), (i2, w2, c2) in zip(a, b):
-        if i1 != i2 or c1 != c2 or not close(w1, w2):
+        if i1 != i2 or not centres_same(c1, c2, exact) or not close(w1, w2):
             return False
     return True
+
+
+def has_restart(c):
+    return any(e[0] in ("restart", "rebin") for e in c["events"])
 
 
 def vec_close(a, b):
@@ -380,9 +443,10 @@ def compare_step(c, im, mo):
         return "energy"
     if not force_close(im["F"], mo["F"]):
         return "force"
-    if (im["nhills"], im["nnew"]) != (mo["nhills"], mo["nnew"]) or not hills_close(im["hills"], mo["hills"]):
+    ex = not has_restart(c)
+    if (im["nhills"], im["nnew"]) != (mo["nhills"], mo["nnew"]) or not hills_close(im["hills"], mo["hills"], ex):
         return "hills"
-    if im["noff"] != mo["noff"] or not hills_close(im["off"], mo["off"]) or im["noffnew"] != mo["noffnew"]:
+    if im["noff"] != mo["noff"] or not hills_close(im["off"], mo["off"], ex) or im["noffnew"] != mo["noffnew"]:
         return "off_grid_list"
     if c["use_grids"]:
         if im["geom"] != mo["geom"]:
@@ -490,7 +554,8 @@ def oracle(c, impl, traj):
     st = steps_of(c)
     tab, pend = [], []
     facts = {"deposits": 0, "projections": 0, "outside_steps": 0, "expansions": 0, "saves": 0, "wt_outside": 0,
-             "wrapped_steps": 0}
+             "wrapped_steps": 0, "restarts": 0, "rebins": 0}
+    lingering = False      # after a restart without keepHills the hills near the edges stay listed until the next projection
     nd = len(c["vars"])
     geom0 = [(v["nx"], v["lower"], v["upper"]) for v in c["vars"]]
     prev_geom = geom0
@@ -504,6 +569,18 @@ def oracle(c, impl, traj):
                     facts["projections"] += 1
                 tab += pend
                 pend = []
+            continue
+        if e[0] in ("restart", "rebin"):
+            facts["restarts"] += 1
+            if c["use_grids"]:
+                if pend:
+                    facts["projections"] += 1
+                tab += pend
+                pend = []
+                lingering = not c["keep"]
+                if e[0] == "rebin":
+                    facts["rebins"] += 1
+                    prev_geom = [tuple(g) for g in e[1]]
             continue
         n += 1
         it, rel, cont, zs = st[n]
@@ -573,12 +650,23 @@ def oracle(c, impl, traj):
                 facts["projections"] += 1
             tab += pend
             pend = []
+            lingering = False
         # which hills must still be listed explicitly
         if c["use_grids"]:
             explicit = (tab + pend) if c["keep"] else pend
         else:
             explicit = tab + pend
-        if not hills_close(im["hills"], explicit):
+        listed = im["hills"]
+        if lingering and len(listed) >= len(explicit):
+            # tabulated hills read back from the state (those near the edges) may precede the untabulated ones
+            extra = listed[:len(listed) - len(explicit)]
+            k = 0
+            for h in tab:
+                if k < len(extra) and extra[k][0] == h[0] and centres_same(extra[k][2], h[2], False):
+                    k += 1
+            if k == len(extra):
+                listed = listed[len(extra):]
+        if not hills_close(listed, explicit, not has_restart(c)):
             return ("schedule:hill-list", "step %d (it=%d): explicit hills are %s, the schedule prescribes %s" % (
                 n, it, [(h[0], h[2]) for h in im["hills"]], [(h[0], h[2]) for h in explicit]), n), facts
         eE, eF, ins = spec_bias(c, geom, x, tab, pend)
@@ -620,7 +708,7 @@ def _var(lower=0.0, nx=8, w=1.0, sigma=1.0, expand=False, **kw):
 def _cfg(cid, vars_, events, **kw):
     c = {"id": cid, "vars": vars_, "use_grids": True, "sig_mode": False, "hw": 2.0, "W": 1.0, "freq": 1,
          "keep": False, "wt": False, "bt": 300.0, "stepzero": False, "gfreq_explicit": False, "gfreq": 1, "it0": 0,
-         "events": [("step", False, list(z)) if z != "save" else ("save",) for z in events]}
+         "events": [("step", False, list(z)) if not isinstance(z, (str, tuple)) else ((z,) if isinstance(z, str) else z) for z in events]}
     c.update(kw)
     if not c["gfreq_explicit"]:
         c["gfreq"] = c["freq"]
@@ -647,6 +735,12 @@ def witnesses():
         _cfg("w_periodic_misaligned", [_var(periodic=True, gper=True, P=8.0, c=0.0)], [[-1.5], [-1.5], [-1.5], [2.5], [-1.5]]),
         # the state is written between two projections
         _cfg("w_save", [_var()], [[3.5], [3.5], "save", [3.25], [-0.25]], gfreq_explicit=True, gfreq=4),
+        # restart: without grids every hill, with grids the hills near the edges, must survive (energy off the grid)
+        _cfg("w_restart_nogrid", [_var()], [[0.5], [0.5], [0.5], [-0.25], "restart", [-0.25], [0.5]], use_grids=False),
+        _cfg("w_restart_grid", [_var()], [[0.5], [0.5], [0.5], [-0.25], "restart", [-0.25], [0.5]]),
+        _cfg("w_restart_twice", [_var()], [[0.5], [0.5], "restart", [0.5], [-0.25], "restart", [-0.25], [0.5]], keep=True),
+        # restart with rebinGrids from the kept hills onto a shifted, larger grid
+        _cfg("w_rebin", [_var()], [[0.5], [1.5], [3.25], ("rebin", [(12, -2.5, 9.5)]), [3.25], [-0.75], [9.75]], keep=True),
         # vector variables without grids
         _cfg("w_vec3", [_var(kind=1)], [[[1.0, 0.0, 0.5]], [[1.0, 0.25, 0.5]], [[0.5, 0.25, 0.5]], [[0.5, 0.5, 0.0]]], use_grids=False, wt=True),
         _cfg("w_unit3", [_var(kind=2)], [[[1.0, 0.0, 0.5]], [[1.0, 0.25, 0.5]], [[0.5, 0.25, 0.5]], [[0.5, 0.5, 0.0]]], use_grids=False),
@@ -715,7 +809,7 @@ def check_one(run, c, impl, mo, txt, rcv, o, traj, mline):
     run.dist("vector_vars", sum(1 for v in c["vars"] if v["kind"] == 1))
     run.dist("unit_vector_vars", sum(1 for v in c["vars"] if v["kind"] == 2))
     run.dist("steps", len(impl))
-    for kk in ("deposits", "projections", "outside_steps", "expansions", "saves", "wt_outside", "wrapped_steps"):
+    for kk in ("deposits", "projections", "outside_steps", "expansions", "saves", "wt_outside", "wrapped_steps", "restarts", "rebins"):
         run.dist(kk, facts[kk])
     if bad:
         sig, text, n = bad
@@ -747,7 +841,7 @@ def corpus_cases():
             if l and not l.startswith("#"):
                 out.append(json.loads(l))
     for c in out:
-        c["events"] = [tuple(e) for e in c["events"]]
+        c["events"] = [tuple(e) if e[0] != "rebin" else ("rebin", [tuple(g) for g in e[1]]) for e in c["events"]]
     return out
 
 
@@ -757,14 +851,16 @@ def check(run):
     run.cov["rule"] = ("scenarios: 1-3 variables: exact distanceZ (non-periodic; periodic with a grid spanning the period, aligned with the "
                        "wrapping interval or not; periodic with a grid on part of the period; expandBoundaries; hard boundaries) with grids, "
                        "distanceVec / distanceDir without grids; hillWidth/gaussianSigmas, newHillFrequency 1-4, gridsUpdateFrequency default "
-                       "or explicit, keepHills, wellTempered, stepZeroData, start step 0-9, run boundaries, state saves, 8-30 steps with values on "
+                       "or explicit, keepHills, wellTempered, stepZeroData, start step 0-9, run boundaries, state saves, restarts (state written, "
+                       "fresh instance, state read; with keepHills also rebinGrids onto shifted/resized boundaries), 8-30 steps with values on "
                        "bin edges / inside / outside the grid. distinct = scenario; non-trivial = >=3 hills deposited, >=1 projection (with "
                        "grids) and >=1 step outside the grid (where the grid does not span a period)")
     run.assumptions += [
         "theorems are about the R instance of the model; the tie runs the float instance; every discrete decision (schedule, bins, "
         "off-grid margin, kernel cut-off, expansion) is taken on dyadic inputs where it is exact, energies/forces/weights are compared "
         "to 1e-9 relative",
-        "multiple replicas, ebMeta, quaternion variables and reading a state back are outside the model",
+        "multiple replicas, ebMeta, quaternion variables, rebinning from the grids of the state (without keepHills) and "
+        "loading a state into an instance that already holds hills are outside the model (the last one is replayed by a witness)",
         "values beyond a boundary declared hard, and values beyond a grid that covers part of the range of a periodic variable, are "
         "outside the premises of the theorems (the latter are generated and tied; the former are not generated)",
     ]
